@@ -21,12 +21,12 @@ Definition wit_leak : list op := [new0 1; ORef 2; ORestack ChRaise 2; OUnref 1; 
 Definition wit_orphan_abort : list op := [new0 1; new0 2; OClose 2; OUnref 2].
 (* #21: the drag source is destroyed, then the next drag event ("W n0.0 b1.m.10.1.- mp md c1 u1 md") *)
 Definition wit_drag : list op :=
-  [new0 1; OBind 2 false 16 true []; OMouse MPress; OMouse MDrag; OClose 2; OUnref 2; OMouse MDrag].
+  [new0 1; OBind 2 0 false 16 true []; OMouse MPress; OMouse MDrag; OClose 2; OUnref 2; OMouse MDrag].
 (* a key handler destroys the sibling that is offered the event next ("W n0.0 n0.0 b2.k.0.0.c1,u1 k") *)
 Definition wit_sibling : list op :=
-  [new0 1; new0 1; OBind 3 true 0 false [OClose 2; OUnref 2]; OKey].
+  [new0 1; new0 1; OBind 3 0 true 0 false [OClose 2; OUnref 2]; OKey].
 (* #21: a drag with no press before it reads the press position that was never stored ("W b0.m.ff.0.- md") *)
-Definition wit_uninit : list op := [OBind 1 false 255 false []; OMouse MDrag].
+Definition wit_uninit : list op := [OBind 1 0 false 255 false []; OMouse MDrag].
 
 Definition outcome (v : verdict) : option (fault * nat) * bool * bool * bool :=
   match v with
